@@ -51,6 +51,7 @@ theorem inv_step (s : BridgeState) (a : BridgeAct) (h : Inv s) : Inv (bridgeStep
       simp only [List.mem_filter] at hp
       exact h3 p hp.1
   | send p => exact ⟨h1, h2, h3⟩
+  | foreign => exact ⟨h1, h2, h3⟩
   | occupy p =>
     simp only [bridgeStep]
     split
@@ -169,6 +170,10 @@ theorem stop_idempotent (s : BridgeState) : (bridgeStep (bridgeStep s .stop).1 .
 
 theorem stop_before_start (ports : List Nat) : (bridgeStep (bridgeInit ports) .stop) = (bridgeInit ports, .ok) := by
   simp [bridgeStep, bridgeInit]
+
+/-- what another bridge object with the same ports does while it is not running (being stopped, trying in vain to start) changes
+    nothing for this bridge -/
+theorem foreign_is_invisible (s : BridgeState) : bridgeStep s .foreign = (s, .ok) := rfl
 
 /-- a stopped bridge can be started again: if nobody else holds the ports, start after stop succeeds -/
 theorem restartable (s : BridgeState) (hn : s.ports.Nodup) (hfree : ∀ p ∈ s.ports, p ∉ s.others) :
